@@ -547,6 +547,42 @@ def main():
                     ints.append("Definition %s_micro : Z := %d. (* %r * 10^6; %s *)" % (nm, int(scaled), v, c[4]))
             else:
                 ints.append("Definition %s : Z := %s. (* %s: %s; %s *)" % (nm, "(%d)" % v if v < 0 else "%d" % v, c[1], c[2][:60].replace("*)", "* )"), c[4]))
+    # constants that vanished from the source (renamed / inlined / deleted): keep the last known
+    # value so the models still build and the correspondence can look for a failing input; the
+    # loss itself is reported and treated by check.py as a broken obligation.
+    fb_path = os.path.join(os.path.dirname(os.path.abspath(__file__)), "constants_fallback.json")
+    try:
+        fallback = json.load(open(fb_path))
+    except (OSError, ValueError):
+        fallback = {}
+    lost_consts = []
+    for nm, ent in sorted(fallback.items()):
+        if nm in emitted:
+            continue
+        lost_consts.append(nm)
+        v = ent["value"]
+        if ent["kind"] == "float":
+            v = float.fromhex(v)
+            floats.append("Definition %s : float := %s. (* LOST from the source; last known value %r *)" % (nm, coq_float(v), v))
+            scaled = v * 1_000_000
+            if scaled == int(scaled) and abs(scaled) < 2**62 and (nm + "_micro") not in emitted:
+                ints.append("Definition %s_micro : Z := %d. (* LOST; fallback *)" % (nm, int(scaled)))
+        else:
+            ints.append("Definition %s : Z := %s. (* LOST from the source; last known value *)" % (nm, "(%d)" % v if v < 0 else "%d" % v))
+        emitted[nm] = v
+    if os.environ.get("VERIF_WRITE_FALLBACK") == "1":
+        tab = {}
+        for nm, v in emitted.items():
+            if nm in lost_consts:
+                continue
+            if isinstance(v, bool):
+                tab[nm] = {"kind": "int", "value": 1 if v else 0}
+            elif isinstance(v, float):
+                if v == v and v not in (float("inf"), float("-inf")):
+                    tab[nm] = {"kind": "float", "value": v.hex()}
+            else:
+                tab[nm] = {"kind": "int", "value": v}
+        json.dump(tab, open(fb_path, "w"), indent=0, sort_keys=True)
     anchors = collect_anchors()
     for nm, v, found, rel in anchors:
         ints.append("Definition %s : Z := %d. (* anchored literal in %s; anchor %s *)" % (nm, v, rel, "matched" if found else "LOST (fallback value)"))
@@ -572,6 +608,7 @@ def main():
         "constants": len(emitted),
         "failed": {"%s@%s" % k: v for k, v in failed.items()},
         "duplicates": dup_notes,
+        "lost_constants": lost_consts,
         "anchors": [{"name": n, "value": v, "matched": f} for n, v, f, _ in anchors],
         "shape": facts,
         "shape_notes": notes,
